@@ -58,6 +58,10 @@ func main() {
 		return nil
 	})
 
+	if err := stripTags(*repo, *verif); err != nil {
+		fmt.Fprintln(os.Stderr, "instrument: tag stripping:", err)
+		os.Exit(1)
+	}
 	if err := instrumentAll(*repo, *out, &full); err != nil {
 		fmt.Fprintln(os.Stderr, "instrument:", err)
 		os.Exit(1)
